@@ -132,6 +132,7 @@ class Air:
         self.activated = False
         self.cap = cap
         self.faults_used = 0
+        self.answers = []          # per entry of trace: the block handed back to the reader, or the exception name
 
     def _fault(self):
         f = self.script[self.pos] if self.pos < len(self.script) else "d"
@@ -153,6 +154,7 @@ class Air:
         if len(self.trace) >= self.cap:
             raise SimLimit("more than %d block exchanges" % self.cap)
         self.trace.append((data, timeout))
+        self.answers.append("TimeoutError")
         if self._fault() != "d":
             raise nfc.clf.TimeoutError
         rsp = self.card.rx(data)
@@ -160,11 +162,15 @@ class Air:
             raise nfc.clf.TimeoutError
         f = self._fault()
         if f == "d":
+            self.answers[-1] = bytes(rsp)
             return bytearray(rsp)
         if f == "l":
             raise nfc.clf.TimeoutError
         if f == "c":
+            self.answers[-1] = "TransmissionError"
             raise nfc.clf.TransmissionError
         if f == "p":
+            self.answers[-1] = "ProtocolError"
             raise nfc.clf.ProtocolError
+        self.answers[-1] = b""
         return bytearray()
